@@ -7,8 +7,8 @@ from lib import props
 NOTES = {
     'C14': ('PARTIAL. Proved: the copy policy of the four attribute-value mappers, read from the sources on every run, copies every kind of value in both directions; a copy under such a policy shares no mutable cell with its argument, for value trees of any shape',
             'not expressible in the model: actual pointer identity in the Go heap. It is OBSERVED by the poke matrix (2 clients x 7 directions x 15 mutable locations: mutate the caller-side structure after the call returned and read again), which must agree with the extracted policy'),
-    'C11': ('PARTIAL. Proved: the lock discipline extracted from the sources of both clients on every run (every access to the shared fields under the mutex, no re-entrant locking) and, for the mutex semantics, that the accesses of every concurrent execution are ordered as a serial execution of whole critical sections',
-            'not expressible in the model: the Go memory model and real schedules. Data-race freedom and linearizability of outcomes are OBSERVED (go test -race stress of every method mix; N concurrent ADD 1 = N; one winner among racing conditional puts), not proved. BatchWriteItem/BatchGetItem are sequences of atomic single-item operations, not atomic as a whole'),
+    'C11': ('PARTIAL. Proved: the lock discipline extracted from the sources of both clients on every run (every access to the shared fields under the mutex, no re-entrant locking), every public method - batch calls, table management and test helpers included - enters at most one critical section per call (call graph with calls before / while holding the lock and calls inside loops), and, for the mutex semantics, the accesses of every concurrent execution are ordered as a serial execution of whole critical sections',
+            'not expressible in the model: the Go memory model and real schedules. Data-race freedom and linearizability of outcomes are OBSERVED (go test -race stress of every method mix; N concurrent ADD 1 = N; one winner among racing conditional puts and racing CreateTable; the reproducers of the seven repaired concurrency defects), not proved'),
     'C02': ('an unlimited read of the base table is exactly the selection of the matching items in key order (reverse for backward), for every interpreter, in every TInv state',
             'also proved through secondary indexes: under IInv the read evaluates exactly the indexed items in (index key, primary key) order; N/B sort keys are ordered as text (known finding C12-2)'),
     'C04': ('base table AND secondary indexes, every interpreter, key condition/filter, both directions, Limit >= 1: following LastEvaluatedKey ends within |entries|+1 pages and the pages concatenate to exactly the unpaginated result (every entry once, in order, also inside runs of equal index keys); on the base table resuming after any start key (stored or deleted meanwhile) returns exactly the matching items ordered after it; resume position decided by order; page size <= Limit',
@@ -24,10 +24,15 @@ NOTES = {
     'C01': ('refinement of single-item operations to a key->item map: TInv for all histories, effect/frame lemmas for every interpreter',
             'envelope: key strings of distinct keys are distinct (hash-only schemas, or hash values without "."; see C13 known finding on the "." separator)'),
     'C03': ('IInv (refs = exactly the items with the index key attributes; sortedKeys = sorted multiset of index keys) for every reachable state, index creation with backfill included',
-            'side condition: UpdateTable never re-declares an attribute with another type'),
+            'no side condition on the history (UpdateTable can not re-type a key attribute: fix c854008); index ItemCount = number of indexed items'),
     'C05': ('condition locality (only the item under the request key is read) and atomicity of refused writes, for every interpreter', ''),
     'C08': ('every failing single-request data operation returns the state unchanged; writes are all-or-nothing over base table and indexes; rejected batches are rejected before any write', 'batch writes that succeed partially under an emulated internal-server failure report the rest as unprocessed (not an error result)'),
-    'C15': ('active failure => configured error and unchanged state for every single data call; toggles change only the flag; activate/calls/deactivate is the identity', 'TransactWriteItems answers ErrForcedFailure whatever condition is configured (known finding)'),
+    'C15': ('active failure => configured error and unchanged state for every single data call; toggles change only the flag; activate/calls/deactivate is the identity; a BatchWriteItem under the internal-server failure returns every request of every table as unprocessed and changes nothing, for any batch', 'TransactWriteItems answers ErrForcedFailure whatever condition is configured (known finding)'),
+    'C13': ('key injectivity (hash-only S/N schemas; dot-free hash values), a key is rejected iff a key attribute is missing or ill-typed, every stored item is filed under the key string of its own key attributes (reachable states of histories whose updates keep key attributes), the schema check demands key types S/N/B and the key attributes of every table have one in every reachable state',
+            'known findings: "." separator collisions (C13-1), UpdateItem may rewrite a key attribute (C13-2, the existing suite relies on it), BatchGetItem keeps malformed keys as unprocessed (C13-3)'),
+    'C20': ('registration key equality <=> same word sequence under the four white-space characters of the language, for every table name and expression (length-prefixed key, injective); exact dispatch; fallback on a miss; update miss = Unsupported with the table untouched', ''),
+    'C19': ('a batch of succeeding write requests = the fold of the single operations (one table, several tables); BatchGetItem answers per table with exactly the items of the individual GetItem calls; an invalid table entry or an unknown table rejects the whole call', 'known findings: absent keys and malformed keys are reported as unprocessed (the existing suite relies on it); the SDK v1 client has no BatchGetItem'),
+    'C16': ('reserved words (573, generated) rejected in every token position of every expression of a request, in any letter case; undefined, unused and malformed placeholders; batch limit 25 exact in both clients; write-request shape', 'known findings C16-1..3 (placeholder usage is a substring test, key-condition shape unchecked)'),
     'C18': ('table frame (an operation on table A leaves table B untouched), ItemCount = number of stored items in every reachable state', ''),
 }
 
